@@ -399,3 +399,48 @@ def r14(rr, repo):
     from .c01 import r8 as c01r8, r11 as c01r11
     c01r8(rr, repo)
     c01r11(rr, repo)
+
+
+@rule('C05.R15', "the marks mean what they say: an address ending in '?' is an ephemeral source (level 1), one ending in '??' a doubly ephemeral one (level 2) that has no request socket at all and is never sent a "
+                 "request, anything else is synchronized (level 0) - decided by evaluating the constructor's own expressions on the three spellings. A level computed wrongly makes a listener a "
+                 "synchronized consumer the publisher waits for (or a '??' listener a client that asks)")
+def r15(rr, repo):
+    from ..peval import PEval, Obj, Sym, Lit, Undecided, Raised
+    za = anchors(repo)
+    init = za.RS_init
+    params = q.func_params(init)
+    addr = params[2]
+    wal = [n for n in ast.walk(init) if isinstance(n, ast.NamedExpr) and U(n.target) == 'ephemeral']
+    plain = [n for n in walk_scope(init) if isinstance(n, ast.Assign) and U(n.targets[0]) == 'ephemeral']
+    level = wal[0].value if wal else plain[0].value if plain else None
+    if level is None:
+        rr.unresolved('where the ephemeral level of a source is computed was not found', za.mod, init, key='ephemeral-levels')
+        return
+    strip = [n for n in walk_scope(init) if isinstance(n, ast.Assign) and U(n.targets[0]) == addr and isinstance(n.value, ast.Call)]
+    push = [n for n in walk_scope(init) if isinstance(n, ast.Assign) and any(U(t) == 'self.push' for t in n.targets)]
+    kept = [n for n in walk_scope(init) if isinstance(n, ast.Assign) and any(U(t) == 'self.ephemeral' for t in n.targets)]
+    rr.floor('stores of the request socket and of the level in Sender.__init__', len(push) + len(kept), 2, za.mod, init)
+    sp_guard = [n for n in walk_scope(za.RS_send_push) if isinstance(n, ast.If)][:1]
+    for text, want in (('tcp://host:5550', 0), ('tcp://host:5550?', 1), ('tcp://host:5550??', 2), ('ipc://pipe?', 1), ('ipc://pi?pe', 0)):
+        try:
+            pe = PEval({addr: Lit(text)})
+            lv = pe.ev(level)
+            ok = isinstance(lv, Lit) and int(lv.v) == want
+            rr.ob(f'the ephemeral level of {text!r} is {want}', ok, za.mod, level, witness=f'{U(level)[:80]} -> {lv!r}', key=f'ephemeral-levels|{text}')
+            if not ok:
+                continue
+            pe.env['ephemeral'] = Lit(want)
+            if strip and want:
+                a2 = pe.ev(strip[0].value)
+                rr.ob(f'the address the sockets connect to is {text!r} without its mark', isinstance(a2, Lit) and a2.v == text.rstrip('?'), za.mod, strip[0], witness=repr(a2), key=f'ephemeral-mark-stripped|{text}')
+            pe.env['context'] = Sym('context', nn=True)
+            pv = pe.ev(push[0].value)
+            none = isinstance(pv, Lit) and pv.v is None
+            rr.ob(f"a source of level {want} {'has no request socket' if want == 2 else 'has a request socket'}", none == (want == 2), za.mod, push[0], witness=f'self.push = {pv!r}', key=f'request-socket|{want}')
+            kv = pe.ev(kept[0].value)
+            rr.ob('the level is kept as computed', isinstance(kv, Lit) and kv.v == want, za.mod, kept[0], witness=repr(kv), key=f'level-kept|{want}')
+            if sp_guard:
+                t = PEval({'self': Obj({'ephemeral': Lit(want)}, 'self')}).ev(sp_guard[0].test)
+                rr.ob(f"send_push {'sends nothing to' if want == 2 else 'sends to'} a source of level {want}", isinstance(t, Lit) and bool(t.v) == (want < 2), za.mod, sp_guard[0], witness=f'{U(sp_guard[0].test)} -> {t!r}', key=f'send-push-level|{want}')
+        except (Undecided, Raised) as exc:
+            rr.unresolved(f'the ephemeral level of {text!r} could not be evaluated', za.mod, level, witness=str(exc)[:100], key=f'ephemeral-levels|{text}')
